@@ -8,6 +8,7 @@ import (
 	"go/types"
 	"os"
 	"strings"
+	"time"
 
 	"golang.org/x/tools/go/ssa"
 )
@@ -167,6 +168,7 @@ type Exec struct {
 	envResults map[string]*Term
 	serverClosed map[Ptr]bool
 	ctxTimeouts []*GoObj
+	timerDurs   []*Term // durations handed to time.After, in call order
 	pcSet    map[*Term]bool
 	eqSubst  map[*Term]*Term
 	model    map[*Term]*Term
@@ -191,6 +193,7 @@ type Exec struct {
 	Unsupported  map[string]int
 
 	maxSteps int
+	deadline time.Time
 	maxPaths int
 	verbose  int
 }
@@ -870,8 +873,13 @@ func (e *Exec) stepG(g *G, nested bool) {
 	}
 	e.steps++
 	e.Instrs++
-	if e.steps&4095 == 0 && atomic.LoadInt32(&memExceeded) != 0 {
-		e.fail(OutBound, "memory budget exceeded")
+	if e.steps&4095 == 0 {
+		if atomic.LoadInt32(&memExceeded) != 0 {
+			e.fail(OutBound, "memory budget exceeded")
+		}
+		if !e.deadline.IsZero() && time.Now().After(e.deadline.Add(20*time.Second)) {
+			e.fail(OutBound, "time budget exhausted inside a path")
+		}
 	}
 	if e.steps > e.maxSteps {
 		e.fail(OutBound, "step bound %d exceeded in %s", e.maxSteps, fr.fn)
